@@ -235,6 +235,14 @@ theorem trimComment_of_not_hasDS (s : Str) (h : hasDS s = false) : trimComment s
   unfold trimComment
   rw [beforeDoubleSlash_of_not_hasDS s h]
 
+theorem replaceChar_of_none (a b : Char) (s : Str) (h : a ∉ s) : replaceChar a b s = s := by
+  induction s with
+  | nil => rfl
+  | cons x t ih =>
+    have hx : (x == a) = false := by simpa using fun e : x = a => h (by simp [e])
+    simp only [replaceChar, List.map_cons, hx, Bool.false_eq_true, if_false] at ih ⊢
+    rw [ih (fun e => h (by simp [e]))]
+
 /-! ### `key: value` lines -/
 
 /-- the `key: value` line without its terminator. -/
